@@ -29,6 +29,7 @@ package bpv7
 
 // govc:func (*Bundle).UnmarshalCbor property C04
 //@ requires r != nil
+//@ assigns rstream(r), *b
 //@ loop 0 invariant true
 
 // ReadAdministrativeRecord / NewAdministrativeRecordFromCbor and the WebSocket-agent dispatcher instantiate the
